@@ -35,6 +35,7 @@ template<class T> struct Ref;
 template<> struct Ref<float> {
     static uint64_t bin(int op, uint64_t a, uint64_t b) { return ref32_bin(op, (uint32_t)a, (uint32_t)b); }
     static uint64_t un(int op, uint64_t a) { return ref32_un(op, (uint32_t)a); }
+    static uint64_t fma(uint64_t a, uint64_t b, uint64_t c) { return ref32_fma((uint32_t)a, (uint32_t)b, (uint32_t)c); }
     static uint64_t frexp(uint64_t a, int* e) { return ref32_frexp((uint32_t)a, e); }
     static uint64_t ldexp(uint64_t a, long e) { return ref32_ldexp((uint32_t)a, e); }
     static uint64_t scalbn(uint64_t a, long e) { return ref32_scalbn((uint32_t)a, e); }
@@ -44,6 +45,7 @@ template<> struct Ref<float> {
 template<> struct Ref<double> {
     static uint64_t bin(int op, uint64_t a, uint64_t b) { return ref64_bin(op, a, b); }
     static uint64_t un(int op, uint64_t a) { return ref64_un(op, a); }
+    static uint64_t fma(uint64_t a, uint64_t b, uint64_t c) { return ref64_fma(a, b, c); }
     static uint64_t frexp(uint64_t a, int* e) { return ref64_frexp(a, e); }
     static uint64_t ldexp(uint64_t a, long e) { return ref64_ldexp(a, e); }
     static uint64_t scalbn(uint64_t a, long e) { return ref64_scalbn(a, e); }
